@@ -13,8 +13,10 @@ def flat_canon(flat):
     return [(d['offset'], d['raw'].hex(), dc.header_fields(d['header']), repr(canon.canon(d['contents']))) for d in flat]
 
 
-def one_stream(ctx, data, kinds, m, lines, pending):
-    replay0 = {'stream': data.hex(), 'tokens': kinds, 'max_payload': m}
+def one_stream(ctx, data, kinds, m, lines, pending, opts='random'):
+    if opts == 'random':
+        opts = dc.decoder_options(ctx.rng) if ctx.rng.random() < 0.7 else None      # one decoder configuration per stream
+    replay0 = {'stream': data.hex(), 'tokens': kinds, 'max_payload': m, 'options': opts}
     chs = gen.chunkings(ctx.rng, data, ctx.thorough)
     if len(data) <= (160 if ctx.thorough else 90):
         # all contiguous (prefix, next chunk) pairs: [data[:i], data[i:j]] -- with state equality after every
@@ -30,7 +32,7 @@ def one_stream(ctx, data, kinds, m, lines, pending):
     for c in chs[2:5]:
         forms += [(c, 'ba_wipe', False), (c, 'ba_reuse', False)]
     for chunks, form, as_ints in forms:
-        calls, flat, err, _ = dc.run_decoder(chunks, m, form=form, as_ints=as_ints)
+        calls, flat, err, _ = dc.run_decoder(chunks, m, form=form, as_ints=as_ints, opts=opts)
         replay = dict(replay0, chunks=[c.hex() for c in chunks], form=form, as_ints=as_ints)
         ctx.count('form_' + form + ('_ints' if as_ints else ''))
         if err is not None:
@@ -65,7 +67,7 @@ def one_stream(ctx, data, kinds, m, lines, pending):
         ctx.case(lines[-1], nontrivial=bool(flat))
     # delivery time, byte by byte
     chunks = [data[i:i + 1] for i in range(len(data))]
-    calls, flat, err, _ = dc.run_decoder(chunks, m)
+    calls, flat, err, _ = dc.run_decoder(chunks, m, opts=opts)
     processed = [int(c.split('|')[3]) for c in calls]
     for k, c in enumerate(calls, 1):
         for pr in filter(None, c.split('|')[0].split(',')):
@@ -133,5 +135,5 @@ def replay(ctx, path):
     obj = json.load(open(path))
     r = obj['input']
     lines, pending = [], []
-    one_stream(ctx, bytes.fromhex(r['stream']), r.get('tokens', ''), r['max_payload'], lines, pending)
+    one_stream(ctx, bytes.fromhex(r['stream']), r.get('tokens', ''), r['max_payload'], lines, pending, opts=r.get('options', 'random'))
     return fv.finish(ctx, 'proof', None)
